@@ -1,5 +1,6 @@
 import HmsProofs.Lemmas.SimHTry
 import HmsProofs.Lemmas.SimHIdxAsg
+import HmsProofs.Lemmas.SimHMeth
 /-!
 # Single statements of the general fragment
 -/
@@ -25,7 +26,8 @@ theorem okGS_exprS_inv (fr il rt : Bool) (sp : Span) (e : Expr) (h : Frag.okFS f
     (∃ msp ty c arms db, e = .matchE msp ty c arms (some (.blockE db)) ∧ ty.isNull = true ∧ Frag.okGE c = true ∧
       Frag.okFArmsS fr il rt arms = true ∧ Frag.okFBS fr il rt db = true) ∨
     (∃ asp op isp ity b i r, e = .assign asp op (.index isp ity b i) r) ∨
-    (∃ asp op msp mty b name r, e = .assign asp op (.member msp mty b name .dot) r) := by
+    (∃ asp op msp mty b name r, e = .assign asp op (.member msp mty b name .dot) r) ∨
+    (∃ csp cty msp mty b a, e = .call csp cty (.member msp mty b "push" .dot) [a] false) := by
   cases e <;> try (simp [Frag.okFS] at h; done)
   case matchE msp ty c arms dflt =>
     right; right; right; right; right; left
@@ -43,7 +45,7 @@ theorem okGS_exprS_inv (fr il rt : Bool) (sp : Span) (e : Expr) (h : Frag.okFS f
       exact ⟨asp, op, isp, ity, b, i, r, rfl⟩
     case member msp mty b name mop =>
       cases mop <;> try (cases op <;> simp [Frag.okFS] at h; done)
-      right; right; right; right; right; right; right
+      right; right; right; right; right; right; right; left
       exact ⟨asp, op, msp, mty, b, name, r, rfl⟩
     left
     cases op
@@ -65,8 +67,16 @@ theorem okGS_exprS_inv (fr il rt : Bool) (sp : Span) (e : Expr) (h : Frag.okFS f
       simp only [Frag.okFS, Bool.and_eq_true] at h
       exact ⟨isp, ty, c, t, rfl, h.1.1, h.1.2, h.2⟩
   case call csp cty base args sw =>
-    right; right; right; left
     cases base <;> try (simp [Frag.okFS] at h; done)
+    case member msp mty b nm mop =>
+      cases mop <;> cases args <;> try (simp [Frag.okFS] at h; done)
+      rename_i a rest
+      cases rest <;> cases sw <;> try (simp [Frag.okFS] at h; done)
+      simp only [Frag.okFS, Bool.and_eq_true, beq_iff_eq] at h
+      obtain ⟨⟨⟨⟨_, rfl⟩, _⟩, _⟩, _⟩ := h
+      right; right; right; right; right; right; right; right
+      exact ⟨csp, cty, msp, mty, b, a, rfl⟩
+    right; right; right; left
     rename_i isp ity name g f si
     refine ⟨csp, cty, isp, ity, name, g, f, si, args, sw, rfl, ?_⟩
     simp only [Frag.okFS] at h
@@ -248,18 +258,29 @@ theorem pgs_step (G : GCtx) (hG : G.OK') (n : Nat) (hPE : ∀ m, m ≤ n → PE 
     rename_i rsp a b incl
     exact hPF A hA loops lscopes d sp name vty rsp a b incl bsp bty stmts env spec ip stk mem hs hT hws hN hpl hd hls hrel hsp
   case letS sp name vty needsCast oty e =>
-    simp only [Frag.okFS, Bool.and_eq_true, Bool.not_eq_eq_eq_not, Bool.not_true] at hs
+    simp only [Frag.okFS, Bool.and_eq_true, Bool.not_eq_eq_eq_not, Bool.not_true, Bool.or_eq_true] at hs
     obtain ⟨hnc, he⟩ := hs
     subst hnc
-    simp only [Frag.wsGS] at hws
+    simp only [Frag.wsGS, Bool.and_eq_true] at hws
     simp only [Frag.identsGS, List.mem_cons] at hT
     simp only [cgS] at hN hpl ⊢
-    generalize hce : cgE G.mod (ρS env.scopes) A.φ e env.lm = ce at hN hpl ⊢
+    generalize hce : cgL G.mod (ρS env.scopes) A.φ e env.lm = ce at hN hpl ⊢
     obtain ⟨hplE, hplS⟩ := hpl.append
     obtain ⟨iset, _⟩ := hplS.instr (i := .setVar (freshVar G.mod { env with lm := ce.2 } name).1) rfl
     have hNm : A.N (freshVar G.mod { env with lm := ce.2 } name).1 := hN _ (by simp [codeVars, var?])
-    have h1 := px_all G n hPE A hA e spec ip stk mem env.lm env.scopes env.vm he hws (fun x hx => hT x (Or.inr hx))
-      (hce ▸ hplE) hrel.rel hsp
+    have h1 : SimOE G A ip (nI (cgL G.mod (ρS env.scopes) A.φ e env.lm).1) stk mem spec (evalExpr G.cfg n e spec) := by
+      rcases he with he | ⟨hfr, hlen⟩
+      · rw [cgL_of_okXE _ _ _ he]
+        rw [varsL_of_okXE he, callsL_of_okXE he] at hws
+        exact px_all G n hPE A hA e spec ip stk mem env.lm env.scopes env.vm he
+          (by simp only [Frag.wsGE, Bool.and_eq_true]; exact hws)
+          (fun x hx => hT x (Or.inr (by
+            simp only [Frag.namesL, varsL_of_okXE he, callsL_of_okXE he]; exact hx)))
+          (by rw [← cgL_of_okXE _ _ _ he, hce]; exact hplE) hrel.rel hsp
+      · obtain ⟨csp, cty, msp, mty, b, rfl, hb⟩ := lenCallOK_inv hlen
+        exact len_sim G n (fun m hm => px_all G m (fun m' hm' => hPE m' (by omega))) A hA csp cty msp mty b spec ip stk mem
+          env.lm env.scopes env.vm hfr hb (by simp only [Frag.wsGE, Bool.and_eq_true]; exact hws)
+          (fun x hx => hT x (Or.inr hx)) (by rw [hce]; exact hplE) hrel.rel hsp
     rw [hce] at h1
     rw [evalStmt_let]
     rcases hev : evalExpr G.cfg n e spec with ⟨r1, st1⟩
@@ -375,7 +396,12 @@ theorem pgs_step (G : GCtx) (hG : G.OK') (n : Nat) (hPE : ∀ m, m ≤ n → PE 
       ⟨isp, ty, cnd, t, eb, rfl, hty, hcnd, ht, heb⟩ | ⟨isp, ty, cnd, t, rfl, hty, hcnd, ht⟩ |
       ⟨csp, cty, isp, ity, name, g, f, si, args, sw, rfl, hcall⟩ | ⟨tsp, tty, tb, ci, cb, rfl, htty, htb, hcb⟩ |
       ⟨msp, mty, mc, arms, db, rfl, hmty, hmc, hmarms, hmdb⟩ | ⟨asp, op, isp, ity, b, i, r, rfl⟩ |
-      ⟨asp, op, msp, mty, b, name, r, rfl⟩
+      ⟨asp, op, msp, mty, b, name, r, rfl⟩ | ⟨csp, cty, msp, mty, b, a, rfl⟩
+    rotate_right
+    · -- `l.push(x);`
+      rw [evalStmt_exprS]
+      exact SimGS.exprS _ (push_step G n (fun m hm => px_all G m (fun m' hm' => hPE m' (by omega))) A hA loops lscopes d sp csp cty
+        msp mty b a env spec ip stk mem hs hT hws hpl hls hrel hsp)
     rotate_right
     · -- `o.f = e`, `o.f op= e`
       rw [evalStmt_exprS]
@@ -472,7 +498,7 @@ theorem pgs_step (G : GCtx) (hG : G.OK') (n : Nat) (hPE : ∀ m, m ≤ n → PE 
         | ok b =>
           obtain ⟨hfr, mem1, ob, hrun, hml⟩ := h1
           simp only []
-          have hsp1 := hsp.world st1 hfr
+          have hsp1 := hsp.world st1 hfr hrun.inv
           have ha := fun it_ => exec_arith G.code G.lim (baseOf (withIt G.s it_) A.fn A.rest A.mp st1.world) ⟨A.fn, 0⟩
             A.rest A.c A.σ A.lab
             rfl hA.code o asp cur b none ob st1 (ip + 1 + nI cr.1) stk mem1 hlog hplA rfl
@@ -547,7 +573,7 @@ theorem pgs_step (G : GCtx) (hG : G.OK') (n : Nat) (hPE : ∀ m, m ≤ n → PE 
       | error ce' => exact SimGS.of_exprError _ hrel hls h1
       | ok v =>
         obtain ⟨hfr, mem1, hrun, hml⟩ := h1
-        have hsp1 := hsp.world st1 hfr
+        have hsp1 := hsp.world st1 hfr hrun.inv
         have hfr' : st1 = { spec with scopes := st1.scopes, out := st1.out, heap := st1.heap } := by rw [hfr]
         have hrel1 : GRel G A env.scopes env.vm st1.scopes mem1 := by rw [hfr]; exact hrel.memLe hml
         cases v <;> try trivial
@@ -636,7 +662,7 @@ theorem pgs_step (G : GCtx) (hG : G.OK') (n : Nat) (hPE : ∀ m, m ≤ n → PE 
       | error ce' => exact SimGS.of_exprError _ hrel hls h1
       | ok v =>
         obtain ⟨hfr, mem1, hrun, hml⟩ := h1
-        have hsp1 := hsp.world st1 hfr
+        have hsp1 := hsp.world st1 hfr hrun.inv
         have hfr' : st1 = { spec with scopes := st1.scopes, out := st1.out, heap := st1.heap } := by rw [hfr]
         have hrel1 : GRel G A env.scopes env.vm st1.scopes mem1 := by rw [hfr]; exact hrel.memLe hml
         cases v <;> try trivial
@@ -718,7 +744,7 @@ theorem pgs_step (G : GCtx) (hG : G.OK') (n : Nat) (hPE : ∀ m, m ≤ n → PE 
           | ok vals =>
             obtain ⟨hfr, mem1, hrun, hml⟩ := h1
             simp only []
-            have hsp1 := hsp.world st1 hfr
+            have hsp1 := hsp.world st1 hfr hrun.inv
             have hvl : vals.length = args.length := by
               have := evalList_length G.cfg _ _ _ _ _ hea
               simpa using this
@@ -734,10 +760,10 @@ theorem pgs_step (G : GCtx) (hG : G.OK') (n : Nat) (hPE : ∀ m, m ≤ n → PE 
                 reach_push G.code G.lim (baseOf (withIt G.s it_) A.fn A.rest A.mp st1.world) (ip + nI CA.1 + 1) k
                   (⟨.builtin "println", none⟩ :: (vals.map (⟨·, none⟩) ++ stk)) mem1 ⟨A.fn, 0⟩ A.rest A.c rfl hA.code
                   (.int args.length) csp (.int (I64.ofInt args.length)) ipush (fun _ => rfl)))
-              have hc := Runs.of_exec1 (fr := G.fr) (fun it_ k => mkS_callVal_println G.code G.lim (withIt G.s it_) A.fn (ip + nI CA.1 + 1 + 1)
+              have hc := Runs.of_exec1W (fr := G.fr) (fun it_ k => mkS_callVal_println G.code G.lim (withIt G.s it_) A.fn (ip + nI CA.1 + 1 + 1)
                 A.rest A.mp k stk mem1 st1.world A.c hA.code csp (vals.map (⟨·, none⟩)) none none t icall
                 (by simpa [hvl] using hlen)
-                (by simpa [List.map_map, Function.comp_def, St.world] using hpt))
+                (by simpa [List.map_map, Function.comp_def, St.world] using hpt)) (fun hi => hi)
               simp only [List.length_map, hvl] at hc
               refine ⟨by rw [hfr], mem1, (((hrun.trans hg).trans hp).trans hc).cast (by omega),
                 hml.mono (by omega), ?_⟩
@@ -831,7 +857,7 @@ theorem pgs_step (G : GCtx) (hG : G.OK') (n : Nat) (hPE : ∀ m, m ≤ n → PE 
                 | some dmsg =>
                   simp only []
                   refine ⟨by cases spec; rfl, mem, ?_, MemLe.refl _ _ _, ?_⟩
-                  · intro k
+                  · refine ⟨fun k => ?_, id⟩
                     obtain ⟨k', e⟩ := hvals2 spec.world k
                     refine ⟨k', _, [], ip + nI CA.1 + 1, A.mp, [], e, ?_⟩
                     exact mkSI_throw G.code G.lim G.s A.fn (ip + nI CA.1) A.rest A.mp (k + k') stk mem spec.world A.c
@@ -898,7 +924,7 @@ theorem pgs_step (G : GCtx) (hG : G.OK') (n : Nat) (hPE : ∀ m, m ≤ n → PE 
       have hB := hTry m rfl (tryHandler G A (A.lab exc.1) stk :: G.s.handlers) _ hA' [] env.scopes 0 tb
         { env with lm := aft.2 } spec (ip + 1) stk mem htb (fun x hx => hT x (Or.inl hx)) hwt
         (fun mm hm => hN mm (Or.inl (Or.inl (Or.inl (Or.inr (hCt ▸ hm)))))) (hCt ▸ hplB) rfl
-        ⟨hrel.rel, hrel.key, hrel.ghost, hrel.ghostC⟩ ⟨trivial, hsp.module, hsp.globals, hsp.depth⟩
+        ⟨hrel.rel, hrel.key, hrel.ghost, hrel.ghostC⟩ ⟨hsp.heap, hsp.module, hsp.globals, hsp.depth⟩
       have hB' : SimGS (G.inTry A (A.lab exc.1) stk) { A with rt := false } [] env.scopes 0 (ip + 1)
           (nI (cgBS G.mod A.src A.φ [] tb { env with lm := aft.2 }).1) stk mem
           (GRel (G.inTry A (A.lab exc.1) stk) { A with rt := false }
@@ -961,7 +987,7 @@ theorem pgs_step (G : GCtx) (hG : G.OK') (n : Nat) (hPE : ∀ m, m ≤ n → PE 
           have hsc2 : st2.scopes = declScopes ci (.ref st1.heap.size) ([] :: st1.scopes) := by rw [hst2]
           have hfr02 : st2 = { spec with scopes := st2.scopes, out := st2.out, heap := st2.heap } := by
             rw [hst2, hfr]
-          have hsp2 : SpecOK G A.mp st2 := hsp.scopes_out st2 hfr02
+          have hsp2 : SpecOK G A.mp st2 := hsp.scopes_out st2 hfr02 hrunC.inv
           have hml02 : MemLe G.fr (A.mp - (A.nv : Int)) mem
               (mem1.set (A.mp - (A.σ fv.1 : Int)) (.ref st1.world.heap.size)) :=
             hmlB.trans (MemLe.set _ _ _ _ _ hcell.2.2)
@@ -1038,7 +1064,7 @@ theorem pgs_step (G : GCtx) (hG : G.OK') (n : Nat) (hPE : ∀ m, m ≤ n → PE 
       | ok cv =>
         obtain ⟨hfr, mem1, hrun1, hml⟩ := h1
         simp only []
-        have hsp1 := hsp.world st1 hfr
+        have hsp1 := hsp.world st1 hfr hrun1.inv
         have hfr' : st1 = { spec with scopes := st1.scopes, out := st1.out, heap := st1.heap } := by rw [hfr]
         have hrel1 : GRel G A env.scopes env.vm st1.scopes mem1 := by rw [hfr]; exact hrel.memLe hml
         have htest := armTests_run G A hA msp ⟨cv, none⟩ stk mem1 st1.world arms aft.2 (ip + nI CC.1) hlit
